@@ -9,7 +9,9 @@ pub mod c03;
 pub mod c04;
 pub mod c05;
 pub mod c06;
+pub mod c07;
 pub mod c08;
+pub mod c09;
 pub mod c14;
 pub mod c16;
 pub mod c17;
@@ -23,7 +25,9 @@ pub fn run(id: &str, tier: Tier) -> Option<CheckResult> {
         "C04" => Some(c04::run(tier)),
         "C05" => Some(c05::run(tier)),
         "C06" => Some(c06::run(tier)),
+        "C07" => Some(c07::run(tier)),
         "C08" => Some(c08::run(tier)),
+        "C09" => Some(c09::run(tier)),
         "C14" => Some(c14::run(tier)),
         "C16" => Some(c16::run(tier)),
         "C17" => Some(c17::run(tier)),
@@ -40,7 +44,9 @@ pub fn replay(id: &str, case: &Value) -> Option<Vec<Violation>> {
         "C04" => Some(c04::replay(case)),
         "C05" => Some(c05::replay(case)),
         "C06" => Some(c06::replay(case)),
+        "C07" => Some(c07::replay(case)),
         "C08" => Some(c08::replay(case)),
+        "C09" => Some(c09::replay(case)),
         "C14" => Some(c14::replay(case)),
         "C16" => Some(c16::replay(case)),
         "C17" => Some(c17::replay(case)),
